@@ -54,6 +54,9 @@ def run(ctx, out, tier):
     for b in ctx.reachable_bodies():
         if any(callee_matches(t, r"^mlua::Function::(call_async|call)$") for bi, t in b.calls()):
             runner = b
+    if runner is not None:
+        # synchronous helpers of the runner (e.g. a function building the ctx table) are looked through
+        runner = ctx.inl(runner, skip=ctx.domain_api, tag="domain")
     n = 0
     if runner is None:
         out.inst("C18.ctx", 0, 6, note="script runner (call_async) not found")
